@@ -95,6 +95,10 @@ Proof.
   split; [apply w_event_nested_repaired|]. split; [apply w_same_event_twice_repaired|]. split; [apply w_ipc_channel_ok|].
   exact w_batch3_repaired. Qed.
 
+(* statement sequences: an initialiser that cannot be typed keeps the payload variable's earlier type *)
+Example C02_ex_rebinding : repaired w_rebind false /\ repaired w_rebind true.
+Proof. split; apply w_rebind_ok. Qed.
+
 (* non-vacuity: a project with structs, an enum, nesting, a channel, an event and a type mapping
    meets the premises of the partial theorem in both modes, and the premise of the property *)
 Example C02_ex_premises :
